@@ -18,7 +18,8 @@ the real engines through run() (zero-force stub, selector patterns for torch.ran
 XL-BOMD, damped KSA, surface hopping with damping): SUM g_k^2 = (kT/m)(1 - a^2) to 3e-6 over dt/damp from 1e-4
 to 10, all masses of the batches incl. padding rows, temperatures incl. 0 K (no noise, 0 < a <= 1), damp = inf
 (a = 1, no noise), on driver objects whose Temp / damp / batch change between runs.
-Not decided: long-run sampling statistics."""
+Long-run statistics are monitored: 16 chains on exact springs per engine, mean kinetic temperature of the second halves within
+5 standard errors + 1 % of the target."""
 
 import os
 
@@ -84,6 +85,40 @@ def public_limits(case):
         pad = max(pad, float(mol.velocities[1, 2].abs().max()))
     out["padding_motion"] = pad
     return out
+
+
+def sampling(case):
+    """Long thermostatted run on exact springs (stub ES): mean kinetic temperature of the second half of the run."""
+    import h5py
+    import numpy as np
+    import torch
+
+    from drivers import vv_driver
+    from drivers.mdlib import MDmod
+    from seqm.Molecule import Molecule
+    from seqm.seqm_functions.constants import Constants
+
+    common.quiet_stdio()
+    MDmod.esdriver = vv_driver.SpringES
+    vv_driver.SpringES.K = 0.002      # (amu A/fs^2)/A: fastest mode 0.09 rad/fs
+    vv_driver.SpringES.G = (0.0, 0.0, 0.0)
+    wd = case["workdir"]
+    os.makedirs(wd, exist_ok=True)
+    params = mdlib.seqm_params()
+    n = 4
+    x0 = torch.tensor([[[0.0, 0.0, 0.0], [1.0, 0.0, 0.0], [0.0, 1.0, 0.0], [0.0, 0.0, 1.0]]], dtype=torch.float64)
+    mol = Molecule(Constants(), params, x0.clone(), torch.ones(1, n, dtype=torch.int64))
+    masses = torch.tensor([1.0, 12.0, 16.0, 2.0], dtype=torch.float64).reshape(1, n, 1)
+    mol.mass = masses.clone()
+    mol.mass_inverse = 1.0 / masses
+    out = {"molid": [0], "prefix": os.path.join(wd, "md"), "print every": 0, "checkpoint every": 0, "xyz": 0, "h5": {"data": 1}}
+    kw = dict(seqm_parameters=params, timestep=case["dt"], Temp=case["T"], output=out)
+    md = MDmod.Molecular_Dynamics_Langevin(damp=case["damp"], **kw) if case["engine"] == "langevin" else MDmod.XL_BOMD(damp=case["damp"], xl_bomd_params={"k": 3}, **kw)
+    md.run(mol, steps=case["steps"], seed=case["seed"])
+    with h5py.File(os.path.join(wd, "md.0.h5")) as f:
+        T = f["data/thermo/T"][()]
+    half = T[len(T) // 2:]
+    return {"mean": float(np.mean(half)), "n": int(len(half))}
 
 
 def thermo_jobs(tier, rng, scratch):
@@ -222,7 +257,25 @@ def main(tier):
             rep.machinery(f"thermostat verdicts for {t_seen} of {len(trecs)} records")
         states += tt.distinct
         trans += tt.generated
+        # ---- long-run mean kinetic temperature (statistical, fixed seeds) ------------------------------------------------
+        samp_info = []
+        for eng, dt, damp, T in (("langevin", 0.5, 20.0, 300.0), ("xl", 0.5, 5.0, 600.0)) + ((("langevin", 0.25, 2.0, 150.0),) if tier == "thorough" else ()):
+            chains = [dict(engine=eng, dt=dt, damp=damp, T=T, steps=4000 if tier == "quick" else 16000, seed=1000 * common.seed() + 17 * k + 3, workdir=os.path.join(scratch, "samp_%s_%d" % (eng, k))) for k in range(16)]
+            sres = common.run_forked(chains, sampling, timeout=1800)
+            means = [r["result"]["mean"] for r in sres if r.get("ok")]
+            if len(means) < 16:
+                rep.machinery("sampling chains failed: " + str([r.get("error") for r in sres if not r.get("ok")][:1]))
+                continue
+            m = sum(means) / len(means)
+            sd = (sum((x - m) ** 2 for x in means) / (len(means) - 1)) ** 0.5
+            sem = sd / len(means) ** 0.5
+            # allowance: 5 standard errors of the mean of 16 independent chains + 1 % (second-order bias of the splitting at this step size)
+            tolT = 5.0 * sem + 0.01 * T
+            samp_info.append({"engine": eng, "dt": dt, "damp": damp, "target": T, "mean": m, "sem": sem, "tolerance": tolT})
+            if not abs(m - T) <= tolT:
+                rep.violation("long_run_temperature_differs_from_target", samp_info[-1], engine=eng, identity="sampling")
         cov = {
+            "sampling": samp_info,
             "thermostat_maps_measured": len(trecs), "thermostat_maps_consistent": t_ok, "thermostat_jobs": len(tj), "fdt_worst_abs_dev_1e-9": worst_fdt, "fdt_tolerance_1e-9": 3000,
             "states": states, "transitions": trans, "traces_validated_against_impl": len(results) + len(xl) + len(trecs), "behaviours_matching": n_ok,
             "samples": samples or [{"note": "none"}], "public_limits": lim, "model_nve_limit_pairs": n_lim,
